@@ -39,6 +39,16 @@ func defaultErrHandlers(c *ssa.CallCommon) bool {
 // runErrFlow checks every source call site inside the functions selected by scope.
 func runErrFlow(w *World, r *Report, rule string, srcs *errSourceSet, scope func(fn *ssa.Function) bool, exempt map[string]string, cfg errflowCfg) {
 	sites := 0
+	cfg.carries = func(v ssa.Value) bool {
+		return dependsOn(v, func(x ssa.Value) bool {
+			c, ok := x.(*ssa.Call)
+			if !ok {
+				return false
+			}
+			_, is := srcs.sourceAt(c)
+			return is
+		})
+	}
 	for _, fn := range w.Funcs {
 		if isTestFile(w, fn) || fn.Synthetic != "" || !scope(fn) {
 			continue
@@ -160,7 +170,7 @@ func ruleStoreErr(w *World, r *Report) {
 		p := w.RelPkg(fn)
 		return (p == "core" || p == "sys") && !purge[fn]
 	}
-	runErrFlow(w, r, "STORE-ERR", cut, scope, storeErrExemptions, errflowCfg{handler: defaultErrHandlers, allowClassify: true})
+	runErrFlow(w, r, "STORE-ERR", cut, scope, storeErrExemptions, errflowCfg{handler: defaultErrHandlers, allowClassify: true, successOnly: true})
 	// information: sites that see only purge errors
 	n := 0
 	for _, fn := range w.Funcs {
